@@ -15,7 +15,6 @@ theorem UpdFamFp.check_reach_ok {p : Profile} {i : Input}
     (hb : buildable i = true) (henc : encodable i = true)
     (hmaxF : (negotiate i.rem i.loc).maxLen = maxFrame i)
     (hQ : ∀ r, U.Q r = qReach legacy f nh fin ((r.take (U.N r)).map (decE v6 ap)))
-    (hposAll : ∀ r, r ≠ [] → U.N r ≠ 0)
     (hes : ∀ e ∈ es, IpEntryOk v6 e) (hp : ap = false → ∀ e ∈ es, e.pid = 0)
     (hfin : sortAttrs (fin.map canonAttr) = sortAttrs (attrs.map canonAttr)) :
     check i (run p i) = .ok ∧ ∃ n s dec, run p i = .obs n s dec .t := by
@@ -31,7 +30,7 @@ theorem UpdFamFp.check_reach_ok {p : Profile} {i : Input}
       funext r
       exact hQ r
     simp only [contentClause, hmsg]
-    rw [hps, checkUpdate_reach_ok i f nh attrs es legacy v6 ap fin _ (chunkSlices_flatten U.N hposAll es) hes hp hfin]
+    rw [hps, checkUpdate_reach_ok i f nh attrs es legacy v6 ap fin _ (chunkSlices_flatten_S U.N U.S U.hdrop U.hpos es hS) hes hp hfin]
 
 /-- generic: withdrawals -/
 theorem UpdFamFp.check_unreach_ok {p : Profile} {i : Input}
@@ -40,7 +39,6 @@ theorem UpdFamFp.check_unreach_ok {p : Profile} {i : Input}
     (hb : buildable i = true) (henc : encodable i = true)
     (hmaxF : (negotiate i.rem i.loc).maxLen = maxFrame i)
     (hQ : ∀ r, U.Q r = qUnreach legacy f ((r.take (U.N r)).map (decE v6 ap)))
-    (hposAll : ∀ r, r ≠ [] → U.N r ≠ 0)
     (hes : ∀ e ∈ es, IpEntryOk v6 e) (hp : ap = false → ∀ e ∈ es, e.pid = 0) :
     check i (run p i) = .ok ∧ ∃ n s dec, run p i = .obs n s dec .t := by
   apply U.check_ok hmsg es rfl hne hS hb henc hmaxF (by rw [hmsg]; rfl)
@@ -55,7 +53,7 @@ theorem UpdFamFp.check_unreach_ok {p : Profile} {i : Input}
       funext r
       exact hQ r
     simp only [contentClause, hmsg]
-    rw [hps, checkUpdate_unreach_ok i f es legacy v6 ap _ (chunkSlices_flatten U.N hposAll es) hes hp]
+    rw [hps, checkUpdate_unreach_ok i f es legacy v6 ap _ (chunkSlices_flatten_S U.N U.S U.hdrop U.hpos es hS) hes hp]
 
 /-! ### withdrawals -/
 
@@ -81,8 +79,10 @@ theorem master_unreach (p : Profile) (i : Input) (h : domUnreach i = true) :
   | rr f => simp [hm] at h
   | unreach f es =>
       simp only [hm, Bool.and_eq_true, Bool.not_eq_true'] at h
-      obtain ⟨⟨⟨⟨hb, henc⟩, hne⟩, hip⟩, hfit⟩ := h
+      obtain ⟨⟨⟨hb, henc⟩, hne⟩, hip⟩ := h
       have hne' : es ≠ [] := by intro hc; rw [hc] at hne; cases hne
+      have hall := henc
+      simp only [encodable, hm, frameBase] at hall
       obtain ⟨v6, hv6⟩ := Option.isSome_iff_exists.mp hip
       -- from buildable
       have hb' := hb
@@ -110,16 +110,13 @@ theorem master_unreach (p : Profile) (i : Input) (h : domUnreach i = true) :
           have : isIpFam Fam.ipv4 = some false := rfl
           rw [this] at hv6; injection hv6 with h'; exact h'.symm
         subst hv
-        have hfit' : (negotiate i.loc i.rem).maxLen > 21 + (5 + 2 + ap4 ((negotiate i.loc i.rem).addpathTx Fam.ipv4)) := by
-          simp only [fitUnreach, hleg.1, hleg.2, Bool.not_false, Bool.and_self, if_true, decide_eq_true_eq] at hfit
-          rw [hmaxE, hap]; exact hfit
-        exact UpdFamFp.check_unreach_ok Fam.ipv4 es (unreachLegacyFp p i.loc i.rem es hextF hc hfit')
-          true false ((negotiate i.loc i.rem).addpathTx Fam.ipv4) hm hne' hes hb henc hmaxF
+        have hfit' : FitS (negotiate i.loc i.rem).maxLen 2 ((negotiate i.loc i.rem).addpathTx Fam.ipv4) 21 es := by
+          simp only [hleg.1, hleg.2, Bool.not_false, Bool.and_self, if_true] at hall
+          rw [hmaxE, hap]
+          exact fitS_of_all i Fam.ipv4 false es _ 2 21 23 _ hall hes rfl
+        exact UpdFamFp.check_unreach_ok Fam.ipv4 es (unreachLegacyFp p i.loc i.rem es hextF hc)
+          true false ((negotiate i.loc i.rem).addpathTx Fam.ipv4) hm hne' ⟨hes, hfit'⟩ hb henc hmaxF
           (fun r => by simp [unreachLegacyFp, unreachLegacyFam, qUnreach])
-          (fun r hr => by
-            cases r with
-            | nil => exact absurd rfl hr
-            | cons e rest => exact Nat.pos_iff_ne_zero.mp (fitN_pos _ _ _ _ e rest hfit'))
           hes hpid
       · -- MP_UNREACH_NLRI
         have hmp : ¬ (f = Fam.ipv4 ∧ (!(negotiate i.loc i.rem).extNh) = true) := by
@@ -127,16 +124,13 @@ theorem master_unreach (p : Profile) (i : Input) (h : domUnreach i = true) :
           apply hleg
           rw [hext] at h2
           simp [h1, h2]
-        have hfit' : (negotiate i.loc i.rem).maxLen > 23 + 4 + 3 + (17 + ap4 ((negotiate i.loc i.rem).addpathTx f)) := by
-          simp only [fitUnreach, hleg, Bool.false_eq_true, if_false, decide_eq_true_eq] at hfit
-          rw [hmaxE, hap]; exact hfit
-        exact UpdFamFp.check_unreach_ok f es (unreachMpFp p i.loc i.rem f v6 es hmp hv6 hfok.1 hfok.2 hc hfit')
-          false v6 ((negotiate i.loc i.rem).addpathTx f) hm hne' hes hb henc hmaxF
+        have hfit' : FitS (negotiate i.loc i.rem).maxLen 0 ((negotiate i.loc i.rem).addpathTx f) (23 + 4 + 3) es := by
+          simp only [hleg, Bool.false_eq_true, if_false] at hall
+          rw [hmaxE, hap]
+          exact fitS_of_all i f v6 es _ 0 (23 + 4 + 3) (23 + 4 + 3) _ hall hes rfl
+        exact UpdFamFp.check_unreach_ok f es (unreachMpFp p i.loc i.rem f v6 es hmp hv6 hfok.1 hfok.2 hc)
+          false v6 ((negotiate i.loc i.rem).addpathTx f) hm hne' ⟨hes, hfit'⟩ hb henc hmaxF
           (fun r => by simp [unreachMpFp, unreachMpFam, qUnreach])
-          (fun r hr => by
-            cases r with
-            | nil => exact absurd rfl hr
-            | cons e rest => exact Nat.pos_iff_ne_zero.mp (fitN_pos _ _ _ _ e rest hfit'))
           hes hpid
 
 /-! ### announcements -/
@@ -164,8 +158,14 @@ theorem master_reach (p : Profile) (i : Input) (h : domReach i = true) :
     | none => simp [hm] at h
     | some nh =>
       simp only [hm, Bool.and_eq_true, Bool.not_eq_true', Bool.or_eq_true] at h
-      obtain ⟨⟨⟨⟨⟨⟨hb, henc⟩, has4⟩, hne⟩, hip⟩, hfit⟩, hnhc⟩ := h
+      obtain ⟨⟨⟨⟨⟨hb, henc⟩, has4⟩, hne⟩, hip⟩, hnhc⟩ := h
       have hne' : es ≠ [] := by intro hc; rw [hc] at hne; cases hne
+      have hall := henc
+      simp only [encodable, hm] at hall
+      rw [Bool.and_eq_true] at hall
+      obtain ⟨hall1, hall2⟩ := hall
+      simp only [frameBase, hm, has4, Bool.not_true, decide_eq_true_eq] at hall1 hall2
+      have hemp : es.isEmpty = false := by cases es <;> simp_all
       obtain ⟨v6, hv6⟩ := Option.isSome_iff_exists.mp hip
       -- from buildable
       have hb' := hb
@@ -206,10 +206,17 @@ theorem master_reach (p : Profile) (i : Input) (h : domReach i = true) :
           have : isIpFam Fam.ipv4 = some false := rfl
           rw [this] at hv6; injection hv6 with h'; exact h'.symm
         subst hv
-        have hfit' : (negotiate i.loc i.rem).maxLen > 23 + ((attrBlock4 attrs).length + 7) +
-            (5 + ap4 ((negotiate i.loc i.rem).addpathTx Fam.ipv4)) := by
-          simp only [fitReach, hleg, if_true, decide_eq_true_eq] at hfit
-          rw [hmaxE, hap, habl]; exact hfit
+        have hfit' : FitS (negotiate i.loc i.rem).maxLen 0 ((negotiate i.loc i.rem).addpathTx Fam.ipv4)
+            (23 + ((attrBlock4 attrs).length + 7)) es := by
+          simp only [hleg, if_true, hemp, Bool.false_eq_true, if_false] at hall2
+          rw [hmaxE, hap, habl]
+          exact fitS_of_all i Fam.ipv4 false es _ 0 _ _ _ hall2 hes (by simp only [attrWire4]; omega)
+        have hbase : 23 + ((attrBlock4 attrs).length + 7) ≤ 65535 := by
+          simp only [hleg, if_true, hemp, Bool.false_eq_true, if_false] at hall1
+          have := hall1
+          simp only [attrWire4] at habl
+          rw [← hmaxE] at this
+          omega
         -- the next hop is an IPv4 address
         have hcond : (Fam.ipv4 == Fam.ipv4) = true ∧ (!extNhNegotiated i) = true := ⟨rfl, by simp [hleg'.2]⟩
         obtain ⟨⟨_, hnhok⟩, hnhv4⟩ := hnhb
@@ -235,13 +242,9 @@ theorem master_reach (p : Profile) (i : Input) (h : domReach i = true) :
             htwoP ▸ attrPart4 attrs hok h12'.1 h12'.2
           exact UpdFamFp.check_reach_ok Fam.ipv4 (.v4 a) attrs es
             (reachLegacyFp p i.loc i.rem attrs es a (attrBlock4 attrs) (attrs.map wireAttr) P hencA hencF
-              (by rw [hasCode_wire]; exact h12'.1) (by rw [hasCode_wire]; exact h12'.2) hextF ha hc hfit')
-            true false ((negotiate i.loc i.rem).addpathTx Fam.ipv4) (attrs.map wireAttr) hm hne' hes hb henc hmaxF
+              (by rw [hasCode_wire]; exact h12'.1) (by rw [hasCode_wire]; exact h12'.2) hextF ha hc)
+            true false ((negotiate i.loc i.rem).addpathTx Fam.ipv4) (attrs.map wireAttr) hm hne' ⟨hes, hfit'⟩ hb henc hmaxF
             (fun r => by simp [reachLegacyFp, reachLegacyFam, qReach])
-            (fun r hr => by
-              cases r with
-              | nil => exact absurd rfl hr
-              | cons e rest => exact Nat.pos_iff_ne_zero.mp (fitN_pos _ _ _ _ e rest hfit'))
             hes hpid hfin
       · -- MP_REACH_NLRI
         have hmp : ¬ (f = Fam.ipv4 ∧ (!(negotiate i.loc i.rem).extNh) = true) := by
@@ -259,10 +262,18 @@ theorem master_reach (p : Profile) (i : Input) (h : domReach i = true) :
           | false => rfl
         have hnhok : nhOk nh = true := hnhb.1.2
         have hnhmp : NhMp nh := nhMp_of nh hnhok hnv4
-        have hfit' : (negotiate i.loc i.rem).maxLen > 23 + (attrBlock4 attrs).length + 4 + (5 + nh.bytes.length) +
-            (17 + ap4 ((negotiate i.loc i.rem).addpathTx f)) := by
-          simp only [fitReach, hlegF, Bool.false_eq_true, if_false, decide_eq_true_eq] at hfit
-          rw [hmaxE, hap, habl]; exact hfit
+        have hvpn : isVpn f = false := (nhPart_ip f v6 hv6).2
+        have hfit' : FitS (negotiate i.loc i.rem).maxLen 0 ((negotiate i.loc i.rem).addpathTx f)
+            (23 + (attrBlock4 attrs).length + 4 + (5 + nh.bytes.length)) es := by
+          simp only [hlegF, Bool.false_eq_true, if_false, nhWireSize, hvpn] at hall2
+          rw [hmaxE, hap, habl]
+          exact fitS_of_all i f v6 es _ 0 _ _ _ hall2 hes (by simp only [attrWire4]; omega)
+        have hbase : 23 + (attrBlock4 attrs).length + 4 + (5 + nh.bytes.length) ≤ 65535 := by
+          simp only [hlegF, Bool.false_eq_true, if_false, nhWireSize, hvpn] at hall1
+          have := hall1
+          simp only [attrWire4] at habl
+          rw [← hmaxE] at this
+          omega
         have hencA : encodeAttrs p (negotiate i.loc i.rem).twoByte attrs 0
             = .ok (attrBlock4 attrs, (attrBlock4 attrs).length) := by
           rw [htwoE]
@@ -278,13 +289,9 @@ theorem master_reach (p : Profile) (i : Input) (h : domReach i = true) :
           htwoP ▸ attrPart4 attrs hok h12'.1 h12'.2
         exact UpdFamFp.check_reach_ok f nh attrs es
           (reachMpFp p i.loc i.rem f v6 attrs es nh (attrBlock4 attrs) (attrs.map wireAttr) P hencA hencF
-            (by rw [hasCode_wire]; exact h12'.1) (by rw [hasCode_wire]; exact h12'.2) hmp hv6 hfok.1 hfok.2 hnhmp hc hfit')
-          false v6 ((negotiate i.loc i.rem).addpathTx f) (attrs.map wireAttr) hm hne' hes hb henc hmaxF
+            (by rw [hasCode_wire]; exact h12'.1) (by rw [hasCode_wire]; exact h12'.2) hmp hv6 hfok.1 hfok.2 hnhmp hc)
+          false v6 ((negotiate i.loc i.rem).addpathTx f) (attrs.map wireAttr) hm hne' ⟨hes, hfit'⟩ hb henc hmaxF
           (fun r => by simp [reachMpFp, reachMpFam, qReach])
-          (fun r hr => by
-            cases r with
-            | nil => exact absurd rfl hr
-            | cons e rest => exact Nat.pos_iff_ne_zero.mp (fitN_pos _ _ _ _ e rest hfit'))
           hes hpid hfin
 
 end Rbgp.Enc
